@@ -53,8 +53,16 @@ def db(x):
     return x / 1e6
 
 
+def name_models(js):
+    """library-independent names: the models of a case are called model_a, model_b, ... in the order of their ids, so
+    the same name carries different gain ranges, powers and noise figures from one generated library to the next (as
+    two equipment files of different vendors / releases do)"""
+    for k, a in enumerate(sorted(js['lib'], key=lambda m: m['id'])):
+        a['name'] = f'model_{"abcdefgh"[k]}'
+
+
 def mname(a):
-    return f'm{a["id"]}'
+    return a['name']
 
 
 def library_json(lib, variable_gain):
@@ -147,7 +155,7 @@ def describe(js):
     return dict(g=db(c['g']), p=db(c['p']), position=['booster', 'inline', 'preamp'][c['pos']], fibre=['0.2 dB/km', '0.3 dB/km', '0.30..0.24 dB/km'][c['fibre']],
                 useOwn=c['useOwn'], useRdm=c['useRdm'],
                 library=[{k: (db(a[k]) if k in ('gmin', 'flat', 'pmax', 'nf0', 'nf') else a[k])
-                          for k in ('id', 'gmin', 'flat', 'pmax', 'nf0', 'nf', 'raman', 'fmin', 'own', 'rdm', 'alw')}
+                          for k in ('name', 'id', 'gmin', 'flat', 'pmax', 'nf0', 'nf', 'raman', 'fmin', 'own', 'rdm', 'alw')}
                          for a in sorted(js['lib'], key=lambda m: m['id'])],
                 admissible=sorted(js['adm']), capable=sorted(js['cap']), mayRefuse=js['mayRefuse'])
 
@@ -372,6 +380,7 @@ def run(chk):
         r = tlc.run('MC_AmpSelection', cfg_text=mc_cfg(b), timeout=2400, tag='c10-mc')
         chk.add_mc(f'MC_AmpSelection MaxLib={b["max_lib"]} WidePairs={b["wide"]}', r)
         for js in r.emitted:
+            name_models(js)
             c = js['c']
             key = json.dumps([sorted(a['id'] for a in js['lib']), c['g'], c['pos'], c['fibre'], c['useOwn'], c['useRdm']])
             n += 1
